@@ -22,6 +22,8 @@ def family(rng):
                          hasscal=rng.random() < 0.5, ntimes=rng.choice([2, 3]), nfreeze=0, nkill=0, allow_subgrid=rng.random() < 0.3)
     farms = [r["id"] for r in base["rows"]]
     base["killfarm"] = sorted([rng.randrange(0, nsteps), rng.choice(farms)] for _ in range(rng.choice([0, 1, 2])))
+    if rng.random() < 0.3:          # a time-typed instance variable (time stamp of the release row) written with the records and restored
+        base["stampvar"] = True
     if rng.random() < 0.4:          # particles put to rest by the IBM; the activity flag is saved with the records and restored
         base["out_active"] = True
         base["freeze"] = sorted([rng.randrange(0, nsteps), rng.randrange(0, 6)] for _ in range(rng.choice([1, 2, 3])))
